@@ -31,12 +31,20 @@ OverlayClauses(e) ==
   IN IF ref.ok THEN
        Cl(~e.ok, pfx \o "copyFailedWhereReferenceSucceeds")
        \cup (IF ~e.ok THEN {} ELSE
-             {pfx \o c : c \in OutcomeClauses(ref.D, e.after, e.before, e.src, r.sym \in {"a=rX", "u=rwx,go=rx"})}
+             {pfx \o c : c \in OutcomeClauses(ref.D, e.after, e.before, e.src, r.sym \in {"a=rX", "u=rwx,go=rx"},
+                                                \* several wildcard matches into a destination the first of them creates
+                                                IF r.wild # <<>> /\ Len(r.wild) > 1
+                                                THEN LET res == ResolvePath(EntriesOf(D0), r.dp) IN
+                                                     IF res.ok /\ ~(res.p = <<>> \/ res.p \in DOMAIN D0) THEN {res.p} ELSE {}
+                                                ELSE {})}
              \* a symlink placed exactly at the destination argument is itself resolved by the next call
              \* (path arguments are resolved, C14): idempotence is not asserted for that shape
              \cup Cl(~(e.srcTop.t = "symlink" /\ r.wild = <<>>)
                      /\ ~(r.wild = <<>> /\ PlacementFlips(e.srcTop, D0, r))
                      /\ ~(r.wild # <<>> /\ \E w \in ToSet(r.wild) : S[w].t = "symlink" \/ PlacementFlips(S[w], D0, r))
+                     \* several matches into a destination that does not exist yet: the first match creates it, so the
+                     \* repetition meets an existing entry there (again a different request by the placement rule)
+                     /\ ~(r.wild # <<>> /\ LET res == ResolvePath(EntriesOf(D0), r.dp) IN res.ok /\ ~(res.p = <<>> \/ res.p \in DOMAIN D0))
                      /\ (~e.second.ok \/ ~SameAbstract(e.after, e.second.after)),
                      "C15.repeatedCopyChangesSomething")
              \cup Cl(~(\A p \in copiedNonDirs : Cardinality({k \in DOMAIN e.notes : e.notes[k] = p}) = 1), "C13.notifierOncePerNonDirectory")
